@@ -1,4 +1,5 @@
 import FrappyProofs.Lemmas.LifecycleGroups
+import FrappyProofs.Lemmas.LifecycleOnce
 import FrappyProofs.Lemmas.MultiEvent
 import FrappyModel.Generated.C15
 /-
@@ -24,7 +25,7 @@ of resolved attachments).
 -/
 namespace Frappy.Proofs.C15
 open Frappy.Lifecycle Frappy.Spec.C15 Frappy.Proofs.Lifecycle Frappy.Proofs.LifecycleInit Frappy.Proofs.LifecycleWait
-  Frappy.Proofs.LifecycleWrites Frappy.Proofs.LifecycleGroups
+  Frappy.Proofs.LifecycleWrites Frappy.Proofs.LifecycleGroups Frappy.Proofs.LifecycleOnce
 
 /-- a finite graph on `mods` is acyclic: it has a topological numbering (with numbers up to the number of modules —
 the length of the longest path) -/
@@ -179,6 +180,49 @@ theorem init_order_once_partial (cfg : Cfg) (fuel : Nat) (sched : List Act) (pic
   · intro hoof m hm
     rw [hst] at hoof ⊢
     exact core_created_inited cfg fuel hoof m hm
+
+/-- "exactly once and in that order", the part demanded of **every** life of a node, full: for every configuration —
+failing early / late initialisation, missing, wrongly typed and cyclic attachments included — every fuel, schedule and
+choice function, and every module: `earlyInit`, `initModule` and `startModule` each run at most once in the whole log,
+however often the module is reached (the attachments of several users, the creation loop, the description of the
+exported modules), `initModule` is never entered without `earlyInit` and never before it.  (The class of seeded change
+C15-m7: a module whose initialisation failed is initialised again each time it is reached.) -/
+theorem hooks_at_most_once (cfg : Cfg) (fuel : Nat) (sched : List Act) (pick : List Name → Nat) :
+    HooksAtMostOnce (run cfg fuel sched pick).log := by
+  apply hooksAtMostOnce_of
+  intro m
+  rw [(run_log cfg fuel sched pick).2]
+  have ht := top_core cfg fuel
+  have hk := top_hookOk _ ht m
+  have h0 := top_no_start _ ht m
+  have hS : HookOk m (startup cfg fuel).log ∧ (startup cfg fuel).log.count (Ev.start m) = 0 := by
+    rw [startup_eq]
+    split
+    · exact ⟨hk, h0⟩
+    · simp only [emit]
+      refine ⟨hookOk_append m _ _ hk h0 (by intro e he; simp at he; subst he; rfl) (by simp), ?_⟩
+      rw [List.count_append, h0]; simp
+  split
+  · have hl := later_hooks (startup cfg fuel) sched pick (startup_modsNd cfg fuel) m
+    exact hookOk_append m _ _ hS.1 hS.2 hl.2 hl.1
+  · exact hS.1
+
+/-- the clause speaks about something: a module whose `initModule` fails, used by two other modules and exported, is
+reached four times (two users, the creation loop, the description) and initialised once; the node is rejected -/
+def onceD : ModCfg := { (default : ModCfg) with name := "d", exported := true, failInit := true }
+def onceU : ModCfg := { (default : ModCfg) with name := "u", atts := [⟨"a0", some "d", true, 0⟩], touchInit := ["a0"] }
+def onceV : ModCfg := { (default : ModCfg) with name := "v", atts := [⟨"a0", some "d", true, 0⟩], touchEarly := ["a0"] }
+def onceCfg : Cfg := { mods := [onceU, onceV, onceD], dyn := [] }
+
+example : (run onceCfg 20 [] (fun _ => 0)).log =
+    [Ev.early "u", Ev.init "u", Ev.early "d", Ev.init "d", Ev.early "v", Ev.exit] ∧
+    (run onceCfg 20 [] (fun _ => 0)).st.errors.length = 3 := by
+  decide +kernel
+
+/-- ... and a second initialisation of the failed module (what the judge sees on the seeded change) breaks the clause -/
+example : ¬ HooksAtMostOnce [Ev.early "u", Ev.init "u", Ev.early "d", Ev.init "d", Ev.early "v", Ev.early "d",
+    Ev.init "d", Ev.exit] := by
+  decide
 
 def init_order_once_statement : Prop :=
   ∀ (cfg : Cfg) (fuel : Nat) (sched : List Act) (pick : List Name → Nat),
